@@ -348,6 +348,9 @@ func TestWorker(t *testing.T) {
 		}
 		if job.Digest {
 			emit(outLine{T: "digest", I: idx, D: eng.Digest(res)})
+			if dir := os.Getenv("VERIF_DIGEST_DUMP"); dir != "" {
+				eng.DumpEvents(fmt.Sprintf("%s/%d.txt", dir, idx))
+			}
 		}
 		bad := len(res.Violations) > 0 || res.Abort != "" || res.LeftTasks > 0 || res.Diverged != ""
 		if bad {
